@@ -159,14 +159,49 @@ pub fn run(ctx: &Ctx) -> i32 {
         }
         SubReport::new("signature-builder", "A", &format!("the public SignatureHeaderBuilder driven directly: every sequence of ≤ {} calls over {:?} (real signatures over the package's header), built, put in place of a built package's signature header and written: every structural rule (tags strictly ascending, so no legacy tag twice), and one OpenPGP string per signature added since the last clear", depth, OPS), c)
     };
-    for s in [&s1, &s2, &s3] {
+    // scriptlet interpreter lists: every list of ≤ 3 words over a small vocabulary, for each scriptlet kind
+    let s4 = {
+        const WORDS: [&str; 5] = ["", "/bin/sh", "-c", "<lua>", "<"];
+        let mut lists: Vec<Vec<String>> = vec![];
+        for len in 0..=3u32 {
+            for code in 0..5u64.pow(len) {
+                lists.push((0..len).map(|i| WORDS[(code / 5u64.pow(i) % 5) as usize].to_string()).collect());
+            }
+        }
+        let kinds = crate::spec::SCRIPT_KINDS;
+        let n = (lists.len() * kinds.len()) as u64;
+        let acc = vlib::report::Acc::merge_all(vlib::par::par_fold(n, Acc::new, |i, acc| {
+            let (list, kind) = (&lists[i as usize / kinds.len()], kinds[i as usize % kinds.len()]);
+            acc.evals += 1;
+            let mut spec = crate::corpus::one_file();
+            spec.name = "progs".into();
+            spec.compression = Comp::None;
+            spec.scripts.insert(kind, ScriptSpec { script: "exit 0".into(), flags: None, prog: Some(list.clone()) });
+            let case = || json!({"scriptlet": kind, "interpreter_list": list});
+            match vlib::report::catch(|| spec.build_bytes(&env)) {
+                Err(p) => acc.viol(crate::common::panic_violation("scriptlet-programs", &p, case()).rank(i)),
+                Ok(Err(e)) => acc.count(&format!("not built: {}", e).chars().take(60).collect::<String>()),
+                Ok(Ok((_, x))) => {
+                    if oracle_valid("scriptlet-programs", &x, true, i, &case, acc) {
+                        acc.nontrivial += 1;
+                    }
+                    acc.count("built");
+                    if i % 211 == 0 {
+                        acc.sample(i, case);
+                    }
+                }
+            }
+        }));
+        SubReport::new("scriptlet-programs", "A", &format!("each of the {} scriptlet kinds × every interpreter list of ≤ 3 words over {:?} ({} lists: empty words, lists of empty words only, the built-in interpreter marker and its prefix): the emitted package passes every structural rule (so no entry with a count of 0); a configuration the builder refuses is not judged", kinds.len(), WORDS, lists.len()), acc)
+    };
+    for s in [&s1, &s2, &s3, &s4] {
         if s.acc.nontrivial == 0 && s.acc.viols.is_empty() {
             crate::ctx::machinery(&format!("sub-check {} judged nothing: vacuous", s.name));
         }
     }
     ctx.finish(
         "exploration",
-        vec![s0, s1, s2, s3],
+        vec![s0, s1, s2, s3, s4],
         &[
             "the validator (vcheck/src/validator.rs) implements the rules listed in DESIGN.md A.5; it is cross-checked against the six rpmbuild-produced assets and hand-broken packages on every run",
             "only rules that all assets satisfy and that the property lists are enforced",
